@@ -126,6 +126,8 @@ let () =
     | ["prev_padding"; p] -> (match prev_padding (n_of_int (int_of_string p)) with Some p -> string_of_int (ni p) | None -> "exc")
     | ["xref_padding"; x] -> string_of_int (ni (xref_stream_padding (n_of_int (int_of_string x))))
     | ["xref_pass2"; a; b] -> (match xref_pass2_padding (n_of_int (int_of_string a)) (n_of_int (int_of_string b)) with Some p -> string_of_int (ni p) | None -> "exc")
+    | ["T_table"; x; d] -> string_of_int (ni (lin_T_table (n_of_int (int_of_string x)) (n_of_int (int_of_string d))))
+    | ["T_stream"; x] -> string_of_int (ni (lin_T_stream (n_of_int (int_of_string x))))
     | ["lindict_text"; id; l; h0; h1; o; e; np; t] ->
       let f x = n_of_int (int_of_string x) in
       hexbytes (lindict_text (f id) (f l) (f h0) (f h1) (f o) (f e) (f np) (f t))
